@@ -79,7 +79,7 @@ def _setup(en):
   en.contracts[E._callable_key(sc.einsum)] = h_einsum
   en.trusted.add('libspec:einsum(x, [0,1,2], w, [0], [0,1,2]) == x * w along the leading axis (A8)')
 
-  def h_dot_cumsum(en_, y, axis, reverse=False, sharding=None):
+  def h_dot_cumsum(en_, y, axis, reverse=False):
     if not arrays._is_seq(y) or axis not in (0, -3):
       raise E.Unsupported('_dot_cumsum outside column mode')
     g = y.get
@@ -88,8 +88,8 @@ def _setup(en):
     if reverse:
       return E.SymSeq(y.length, lambda i: CS(n) - CS(E.to_z3(i)), z3.RealSort(), 'reverse_cumsum')
     return E.SymSeq(y.length, lambda i: CS(E.to_z3(i) + 1), z3.RealSort(), 'cumsum')
-  en.contracts[E._callable_key(jnu._dot_cumsum)] = h_dot_cumsum
-  en.trusted.add('callee contract: _dot_cumsum(y, axis)[k] == sum_{j<=k} y[j] (reverse: sum_{j>=k}); single-device kernel under contract in C13, sharded schedule in C07')
+  en.contracts[E._callable_key(jnu._single_device_dot_cumsum)] = h_dot_cumsum
+  en.trusted.add('callee contract: _single_device_dot_cumsum(y, axis)[k] == sum_{j<=k} y[j] (reverse: sum_{j>=k}) -- discharged in C13 (weight matrix [i <= j] and the prefix-sum lemma); cumsum / reverse_cumsum / _dot_cumsum run from source with sharding=None (the sharded schedule is C07)')
 
   def sum_attr(en_, s):
     def fn(en__, axis=None, keepdims=False, **k):
